@@ -8,7 +8,7 @@ use vh::{json, Cli, Report, Rng};
 fn main() {
     let cli = Cli::parse();
     let mut rep = Report::new("C04", &cli);
-    rep.note("rule", json!("case = Sort / VisualSort / BatchSort / BatchVisualSort (both positional metrics, shards 1..4; for the batch kinds the interleaving is a batch holding several scenes and the projection feeds one scene per batch) x interleaved history of 30..90 predict calls over 2..4 scenes; in 60% of the cases the scenes' objects occupy exactly the same image coordinates; in ~2.5% of the cases a further scene of the same tracker holds 1200..1600 tracks (created before the history, never touched again) while the history's own scenes are crowded (14..16 objects). Monitors: (1) lifecycle model: no record may continue a track of another scene; (2) differential: for every scene the projection of the history onto that scene is replayed on a fresh tracker and the interleaved run's records for that scene must equal it call by call - same grouping up to an id bijection built incrementally, and bit-identical boxes, epochs, lengths, custom ids. A grouping difference is handed to the explain-divergence oracle (C02 / C12 references on both runs' own pre-call states): it is a violation unless both outcomes are valid optimal associations (then it is counted as a tie divergence); a difference in numbers with equal grouping is always a violation. Non-trivial: scene projections with >= 2 calls in which another scene's call lies between two calls of this scene; distinct by (history, scene)."));
+    rep.note("rule", json!("case = Sort / VisualSort / BatchSort / BatchVisualSort (both positional metrics, shards 1..4; for the batch kinds the interleaving is a batch holding several scenes and the projection feeds one scene per batch) x interleaved history of 30..90 predict calls over 2..4 scenes; in 60% of the cases the scenes' objects occupy exactly the same image coordinates; in ~3% of the cases a further scene of the same tracker holds 1200..1600 tracks (created before the history, never touched again) while the history's own scenes are crowded (14..16 objects). Monitors: (1) lifecycle model: no record may continue a track of another scene; (2) differential: for every scene the projection of the history onto that scene is replayed on a fresh tracker and the interleaved run's records for that scene must equal it call by call - same grouping up to an id bijection built incrementally, and bit-identical boxes, epochs, lengths, custom ids. A grouping difference is handed to the explain-divergence oracle (C02 / C12 references on both runs' own pre-call states): it is a violation unless both outcomes are valid optimal associations (then it is counted as a tie divergence); a difference in numbers with equal grouping is always a violation. Non-trivial: scene projections with >= 2 calls in which another scene's call lies between two calls of this scene; distinct by (history, scene)."));
     rep.note("assumptions", json!(["histories contain no bit-identical detections within a call"]));
     let n = cli.cases(640, 5000);
     for idx in cli.index_range(n) {
@@ -26,7 +26,7 @@ fn main() {
         // now and then another scene of the same tracker holds a very large population of tracks (a busy camera next to
         // quiet ones): 1200..1600 tracks created before the history starts, never touched again. The history's own scenes
         // are then crowded (14..16 objects) so that their calls are contested assignment problems.
-        let heavy = !cli.small && rng.chance(0.025);
+        let heavy = !cli.small && rng.chance(if kind.is_visual() { 0.012 } else { 0.06 });
         let heavy_tracks = if heavy { *rng.pick(&[1200usize, 1600]) } else { 0 };
         let w = WorldOpts {
             scenes,
